@@ -220,6 +220,7 @@ class DB:
         self.adts = {}
         self.impls = []
         self.traits = {}
+        self.reachable_fns = set()     # functions callable from outside their crate (effective visibility)
         self.headers = {}
         self.by_parent = collections.defaultdict(list)
         self._callers = None
@@ -246,6 +247,8 @@ class DB:
                         self.impls.append(o)
                     elif "trait_decl" in o:
                         self.traits[o["trait_decl"]] = o
+                    elif "reachable_fns" in o:
+                        self.reachable_fns.update(o["reachable_fns"])
                     elif "header" in o:
                         self.headers[c] = o
             self.crates.append(c)
